@@ -437,7 +437,7 @@ def compare_session(ctx, case, mout, read_timeout=0.5, confirm=True):
     """Per call: class vs spec (property) and vs model (tie), order and number of requests, the bucket that is listed,
     the verified-bucket cache after the call.  Only the first disagreeing call of a history is reported (later ones may
     merely follow from it); the case kept for the replay is the history up to and including that call."""
-    res = impl_session(case, read_timeout)
+    res = impl_pre(case, read_timeout, confirm)
     stale = bool(_state.get('stale'))
     first = {}                      # 'property' / 'tie' -> (call, what, impl class, wanted class): first call only
     for k, r in enumerate(res):
@@ -525,7 +525,7 @@ def compare(ctx, case, mout, read_timeout=0.5, confirm=True):
     if kind == 'chunk':
         case['_consumed_b'] = mout[2]
     if kind == 'rdb':
-        icls, ireq, _ = impl_rdb(case, read_timeout)
+        icls, ireq, _ = impl_pre(case, read_timeout, confirm)
         mcls, mn, scls, sn = mout[0][0], mout[1], mout[2][0], mout[3]
         scls = 0 if scls == 0 else 1       # every ChunkStoreError becomes DataSourceNotFound
         want_req_m, want_req_s = 'O' * mn, 'O' * sn
@@ -537,7 +537,7 @@ def compare(ctx, case, mout, read_timeout=0.5, confirm=True):
         if icls != mcls or ireq != want_req_m:
             problems.append(('tie', 'result' if icls != mcls else 'requests', icls, mcls))
     elif kind == 'chunk':
-        icls, ireq, clog = impl_chunk(case, read_timeout)
+        icls, ireq, clog = impl_pre(case, read_timeout, confirm)
         if confirm:
             idx = '_'.join('%05d' % 0 for _ in env()[1][case['payload']]['array'].shape)
             check_paths(ctx, case, clog, ['bkt/arr/%s.npy' % idx])
@@ -1247,7 +1247,7 @@ def impl_site(case, read_timeout):
 def compare_site(ctx, case, mout, read_timeout=0.5, confirm=True):
     import hashlib
     _, pls = env()
-    icls, log = impl_site(case, read_timeout)
+    icls, log = impl_pre(case, read_timeout, confirm)
     site = case['site']
     names = dict(CLASS_NAMES)
     names[10] = 'False'
@@ -1652,6 +1652,136 @@ def safe_model(ctx, cases):
     return out
 
 
+# ---------------------------------------------------------------------------------------------------
+# Worker processes for the implementation runs.  A case of kind chunk / rdb / site / session is a pure function of the case
+# (fresh store object(s), its own fault script): K fresh interpreters, each with a loopback endpoint of its own, run them
+# side by side (client and fake server of ONE process share a GIL, and the stall symbols are pure waiting).  The parent
+# still does every comparison; a disagreement is re-run IN the parent with the generous timeout before it is reported.
+# Token kinds stay in the parent (scripted clock, exception texts).
+
+WORKER_KINDS = ('chunk', 'rdb', 'site', 'session')
+
+
+def impl_any(case, read_timeout):
+    kind = case['kind']
+    if kind == 'chunk':
+        return impl_chunk(case, read_timeout)
+    if kind == 'rdb':
+        return impl_rdb(case, read_timeout)
+    if kind == 'site':
+        return impl_site(case, read_timeout)
+    if kind == 'session':
+        return impl_session(case, read_timeout)
+    raise ValueError(kind)
+
+
+def impl_pre(case, read_timeout, confirm):
+    """The result a worker computed for this case (first look only), else a run in this process."""
+    pre = case.pop('_pre', None)
+    if pre is not None and confirm and read_timeout == 0.5:
+        return pre
+    return impl_any(case, read_timeout)
+
+
+def worker_main():
+    import sys
+    out = os.fdopen(os.dup(1), 'w')
+    os.dup2(2, 1)                      # nothing but results on the result pipe
+    quiet()
+    env()
+    rdb_bytes()
+    for line in sys.stdin:
+        try:
+            r = impl_any(json.loads(line), 0.5)
+        except Exception as e:         # the parent runs the case itself
+            r = None
+        out.write(json.dumps(r) + '\n')
+        out.flush()
+    out.write(json.dumps({'slept': len(_state['nosleep'].slept)}) + '\n')
+    out.flush()
+
+
+class _Workers:
+    def __init__(self, n):
+        import subprocess
+        import sys
+        self.procs = [subprocess.Popen([sys.executable, '-c', 'from props import c09; c09.worker_main()'],
+                                       stdin=subprocess.PIPE, stdout=subprocess.PIPE, text=True, bufsize=1)
+                      for _ in range(n)]
+        self.dead = set()
+        self.feeders = []
+        self.slept = 0
+
+    def submit(self, cases):
+        """Hands the cases out round-robin; returns for each case the worker that has it (the results of one worker come back
+        in the order of submission)."""
+        import threading
+        n = len(self.procs)
+        lines = [[] for _ in range(n)]
+        owner = []
+        for j, c in enumerate(cases):
+            w = j % n
+            owner.append(w)
+            lines[w].append(json.dumps({k: v for k, v in c.items() if not k.startswith('_')}) + '\n')
+
+        def feed(w):
+            try:
+                for ln in lines[w]:
+                    self.procs[w].stdin.write(ln)
+                self.procs[w].stdin.flush()
+            except Exception:
+                self.dead.add(w)
+        for w in range(n):
+            t = threading.Thread(target=feed, args=(w,), daemon=True)
+            t.start()
+            self.feeders.append(t)
+        return owner
+
+    def result(self, w):
+        if w in self.dead:
+            return None
+        try:
+            line = self.procs[w].stdout.readline()
+            if not line:
+                raise EOFError
+            return json.loads(line)
+        except Exception:
+            self.dead.add(w)           # everything still owed by this worker is run in the parent
+            return None
+
+    def close(self):
+        for t in self.feeders:
+            t.join(5)
+        for w, p in enumerate(self.procs):
+            try:
+                p.stdin.close()
+                if w not in self.dead:
+                    last = p.stdout.readline()
+                    self.slept += json.loads(last).get('slept', 0) if last else 0
+                p.wait(10)
+            except Exception:
+                p.kill()
+
+
+def farm_out(ctx, cases):
+    """Attaches to every farmable case the result of a worker (`_pre`); yields nothing when there are no workers."""
+    pool = _state.get('workers')
+    todo = [c for c in cases if c['kind'] in WORKER_KINDS]
+    if pool is None or len(todo) < 8:
+        return lambda c: None
+    owner = {id(c): w for c, w in zip(todo, pool.submit(todo))}
+
+    def fetch(c):
+        w = owner.get(id(c))
+        if w is None:
+            return
+        r = pool.result(w)
+        if r is not None:
+            c['_pre'] = r
+            ctx.count('impl_runs_in_worker_processes')
+    return fetch
+
+
 def canon(case):
     return json.dumps({k: v for k, v in case.items() if k not in ('token_str', 'url') and not k.startswith('_')},
                       sort_keys=True, default=str)
@@ -1659,9 +1789,11 @@ def canon(case):
 
 def run_cases(ctx, cases):
     mouts = safe_model(ctx, cases) if (ctx.model_ok or _state.get('stale')) else None
+    fetch = farm_out(ctx, [c for i, c in enumerate(cases) if mouts is not None and mouts[i] is not None])
     for i, c in enumerate(cases):
         if mouts is None or mouts[i] is None:
             continue
+        fetch(c)
         compare(ctx, c, mouts[i])
         if c['kind'] == 'session':
             ctx.note_case(canon(c), nontrivial=any(o['fs'] for o in c['ops']),
@@ -1768,6 +1900,10 @@ def run(ctx):
     if ctx.model_ok and not _state.get('stale'):
         _state['expected_paths'] = expected_paths(ctx)
     walls = ctx.extra.setdefault('wall_s_by_case_family', {})
+    nworkers = int(os.environ.get('VERIF_C09_WORKERS', '4'))
+    if nworkers > 0:
+        _state['workers'] = _Workers(nworkers)
+        ctx.extra['worker_processes'] = nworkers
     for name, gen in (('url', url_cases), ('token', token_cases), ('tokhist', hist_cases), ('site', site_cases),
                       ('session', session_cases), ('chunk+rdb', gen_cases), ('budget', budget_cases)):
         t0 = time.time()
@@ -1793,7 +1929,11 @@ def run(ctx):
             ctx.disagree('what=extraction_vs_vm_compute', dict(kind='extraction'), None, None,
                          'extracted model differs from vm_compute', kind='tie')
         ctx.extra['extraction_crosscheck_cases'] = len(sample)
-    ctx.extra['backoff_sleeps_skipped'] = len(_state['nosleep'].slept)
+    slept_in_workers = 0
+    if _state.get('workers') is not None:
+        _state['workers'].close()
+        slept_in_workers = _state['workers'].slept
+    ctx.extra['backoff_sleeps_skipped'] = len(_state['nosleep'].slept) + slept_in_workers
     _state['fake'].close()
     remove_library_hooks()
     _state.clear()
